@@ -173,6 +173,10 @@ func (p *Processor) Run(ctx context.Context) error {
 				continue
 			}
 
+			// Segments of the partition are handled in order. When one of them
+			// fails, stop for this cycle instead of moving on: committing the
+			// offset of a later segment would checkpoint past the failed one and
+			// its records would be filtered out for good. The next tick retries.
 			for _, seg := range segments {
 				if seg.Topic != activeLease.Topic || seg.Partition != activeLease.Partition {
 					continue
@@ -181,13 +185,13 @@ func (p *Processor) Run(ctx context.Context) error {
 				state, err := p.store.LoadOffset(ctx, seg.Topic, seg.Partition)
 				if err != nil {
 					metrics.ErrorsTotal.WithLabelValues("checkpoint").Inc()
-					continue
+					break
 				}
 
 				decoded, err := p.decode.Decode(ctx, seg.SegmentKey, seg.IndexKey, seg.Topic, seg.Partition)
 				if err != nil {
 					metrics.ErrorsTotal.WithLabelValues("decode").Inc()
-					continue
+					break
 				}
 
 				records := mapRecords(decoded)
@@ -202,7 +206,7 @@ func (p *Processor) Run(ctx context.Context) error {
 					resolved, err := p.resolveLfsRecords(ctx, records, mapping.Lfs, seg.Topic)
 					if err != nil {
 						metrics.ErrorsTotal.WithLabelValues("lfs").Inc()
-						continue
+						break
 					}
 					records = resolved
 				}
@@ -225,7 +229,7 @@ func (p *Processor) Run(ctx context.Context) error {
 					log.Printf("sink write failed topic=%s partition=%d offsets=%d-%d: %T %v", first.Topic, first.Partition, first.Offset, last.Offset, err, err)
 					log.Printf("sink write error details: %+v", err)
 					metrics.ErrorsTotal.WithLabelValues("sink").Inc()
-					continue
+					break
 				}
 				metrics.WriteLatency.WithLabelValues(seg.Topic).Observe(float64(time.Since(start).Milliseconds()))
 
